@@ -363,6 +363,38 @@ Section ApiProofs.
   Qed.
 End ApiProofs.
 
+(* ---------- the decoded header is the header in the token ---------- *)
+Section WireHeader.
+  Variable json_loads : bytes -> res pv.
+  Variable transport_decode : bytes -> res (hdr * bytes).
+  (* the JSON object in the first segment of a compact token *)
+  Variable wire_header : bytes -> option hdr.
+  (* contract (C01/C03 for JWS, C02/C04 for JWE): an accepted token's header is the parsed
+     protected segment - the verifying side adds nothing *)
+  Hypothesis transport_header_is_wire :
+    forall tok h p, transport_decode tok = Ok (h, p) -> wire_header tok = Some h.
+
+  Lemma decode_header_is_wire tok h v :
+    decode json_loads transport_decode tok = Ok (h, v) -> wire_header tok = Some h.
+  Proof.
+    intro H. apply decode_ok_iff in H. destruct H as (p & T & _ & _).
+    exact (transport_header_is_wire tok h p T).
+  Qed.
+End WireHeader.
+
+Lemma api_decode_header_is_wire
+  (json_loads : option N -> bytes -> res pv)
+  (jws_decode jwe_decode : bytes -> targs -> res (hdr * bytes))
+  (wire_header : bytes -> option hdr) :
+  (forall tok a h p, jws_decode tok a = Ok (h, p) -> wire_header tok = Some h) ->
+  (forall tok a h p, jwe_decode tok a = Ok (h, p) -> wire_header tok = Some h) ->
+  forall tok a d h v,
+    jwt_decode json_loads jws_decode jwe_decode tok a d = Ok (h, v) -> wire_header tok = Some h.
+Proof.
+  intros HS HE tok a d h v H. apply api_decode_iff in H. destruct H as (p & T & _ & _).
+  destruct (reg_is_jwe (ta_reg a)); [exact (HE _ _ _ _ T) | exact (HS _ _ _ _ T)].
+Qed.
+
 (* ---------- non-vacuity: a concrete transport + JSON codec meeting both
    contracts on which encode succeeds ---------- *)
 Definition toy_hdr : hdr := [(asc "typ", PStr (asc "JWT")); (asc "alg", PStr (asc "none"))].
@@ -427,3 +459,15 @@ Lemma hostile_decoder_instance :
              (fun _ _ => Err EValue) (fun t _ => Ok (toy_hdr, toy_payload))
              toy_token (mkta 1 None (Some (true, 2%N))) None = Ok (toy_hdr, PDict [(asc "sub", PStr (asc "a"))]).
 Proof. vm_compute. split; reflexivity. Qed.
+
+Lemma wire_header_instance :
+  (forall tok (a : targs) h p, (fun t (_ : targs) => toy_tdec t) tok a = Ok (h, p) ->
+     (fun t => if beqb t toy_token then Some toy_hdr else None) tok = Some h) /\
+  jwt_decode (fun _ => toy_loads) (fun t _ => toy_tdec t) (fun t _ => toy_tdec t)
+             toy_token (mkta 1 None None) None = Ok (toy_hdr, PDict []).
+Proof.
+  split.
+  - intros tok a h p. cbv beta. unfold toy_tdec. destruct (beqb tok toy_token); [|discriminate].
+    intro H. injection H as <- _. reflexivity.
+  - vm_compute. reflexivity.
+Qed.
